@@ -484,6 +484,38 @@ class Bus (objects.DBusObject):
                 (name,),
             )
 
+    @staticmethod
+    def _matchRuleItems(rule):
+        """
+        Splits a match rule into its (key, value) pairs. A value stands in
+        single quotes, may hold commas and equal signs, and an apostrophe
+        inside it is written '\\''. The empty rule has no pairs (it matches
+        everything). Raises ValueError for text that is not a rule.
+        """
+        items = []
+        i, n = 0, len(rule)
+        while i < n:
+            if rule[i] == ',':
+                i += 1
+                continue
+            eq = rule.index('=', i)
+            key = rule[i:eq]
+            i = eq + 1
+            value = []
+            while i < n and rule[i] != ',':
+                if rule[i] == "'":
+                    end = rule.index("'", i + 1)
+                    value.append(rule[i + 1:end])
+                    i = end + 1
+                elif rule[i] == '\\' and rule[i + 1:i + 2] == "'":
+                    value.append("'")
+                    i += 2
+                else:
+                    value.append(rule[i])
+                    i += 1
+            items.append((key, ''.join(value)))
+        return items
+
     def dbus_AddMatch(self, rule, dbusCaller=None):
         caller = self.clients[dbusCaller]
 
@@ -500,14 +532,7 @@ class Bus (objects.DBusObject):
             'arg0namespace': None,
         }
 
-        for item in rule.split(','):
-            if not item:
-                continue  # the empty rule (no constraints) matches everything
-
-            k, v = item.split('=')
-
-            value = v[1:-1]
-
+        for k, value in self._matchRuleItems(rule):
             if k == 'type':
                 k = 'mtype'
 
